@@ -348,7 +348,18 @@ def run(ctx: Ctx):
     return "other", ("Mixed: frame / cache-purity / token-coverage obligations by FrameCheck on the real source; histories and co-computation pairs are bounded stand-ins. " + note)
 
 
+def _case_of(payload):
+    if "case" in payload:
+        return payload["case"]
+    m = payload.get("model")
+    return m.get("case") if isinstance(m, dict) else None
+
+
 def replay(payload):
+    if _case_of(payload) is None:
+        print("REPLAY: obligation", payload.get("obligation"), "-", payload.get("formula"), "| solver:", str(payload.get("solver_output"))[:500])
+        return 1
+    payload = {**payload, "case": _case_of(payload)}
     case = payload["case"]
     r = check_history(case) if "history" in case else check_cocompute(case)
     print("REPLAY:", "contract holds" if r is None else r["why"])
